@@ -12,7 +12,7 @@ import (
 func init() {
 	register(&propInfo{
 		ID:          "C04",
-		Explanation: "Path, origin and call-graph analysis of everything that can cause a handler execution: (R04.1) the client re-sends a request only on a path where the method's retry flag is known true, that flag is exactly `retry tag == \"true\"` (likewise notify), and the retry decision compares the wire error's code with the temporary-connection code; (R04.2) the request writer is only ever given the request just received from the request queue or a locally built id-less built-in notification; (R04.3) nothing reachable from the in-flight failer, the sink closer or the redial path writes a request (in-flight requests are failed, never re-queued); (R04.4) notifications: no id is minted on the notify branch, the accept arm never registers an id-less request, the server gives it a discarding writer and emits no success reply; (R04.5) each inbound frame is dispatched once, and each call is handed to the dispatcher exactly once, on its own goroutine; (R04.6) in the dispatcher the user call has a single site outside any loop and dominates the success reply; (R04.7) the HTTP transport uses a non-replayable request (POST, no idempotency-key header), so net/http never re-sends it by itself; (R04.8) frames are decoded into fresh memory (a recycled buffer would make one handler run with another call's params). (R04.9) every proxy field gets a call descriptor allocated for it.",
+		Explanation: "Path, origin and call-graph analysis of everything that can cause a handler execution: (R04.1) the client re-sends a request only on a path where the method's retry flag is known true, that flag is exactly `retry tag == \"true\"` (likewise notify), and the retry decision compares the wire error's code with the temporary-connection code; (R04.2) the request writer is only ever given the request just received from the request queue or a locally built id-less built-in notification; (R04.3) nothing reachable from the in-flight failer, the sink closer or the redial path writes a request (in-flight requests are failed, never re-queued); (R04.4) notifications: no id is minted on the notify branch, the accept arm never registers an id-less request, the server gives it a discarding writer and emits no success reply; (R04.5) each inbound frame is dispatched once, and each call is handed to the dispatcher exactly once, on its own goroutine; (R04.6) in the dispatcher the user call has a single site outside any loop and dominates the success reply; (R04.7) the HTTP transport uses a non-replayable request (POST, no idempotency-key header), so net/http never re-sends it by itself; (R04.8) frames are decoded into fresh memory (a recycled buffer would make one handler run with another call's params). (R04.9) every proxy field gets a call descriptor allocated for it. (R04.10) no rejection before the handler depends on the request's id; (R04.11) the HTTP exchange is performed inside the call.",
 		NotDecided:  "Executions counted under real faults and schedules; behaviour of intermediaries; net/http internals beyond its documented replay rule.",
 		Assumptions: []string{"net/http replays a request on a dropped keep-alive connection only if it is idempotent (GET/HEAD/OPTIONS/TRACE) or carries an (X-)Idempotency-Key header"},
 		Run:         runC04,
